@@ -113,6 +113,10 @@ Fixpoint drive (s : state) (l : list ostep) : state * bool :=
    7 ctxdone (the call is made with a context that is already done) *)
 Record ev := mkEv { et : Z; ea : nat; ek : Z; eop : nat; ev1 : Z; ev2 : Z; ev3 : Z }.
 
+(* what the runner writes: thread and call index as binary numbers (a unary literal of an index costs its value in
+   parsing and type checking; logs have thousands of events) *)
+Definition mkEvZ (t a k i v1 v2 v3 : Z) : ev := mkEv t (Z.to_nat a) k (Z.to_nat i) v1 v2 v3.
+
 Record ccase := mkCase
   { cscripts : list (list op);
     ccache : bool;    (* the calls go through a cache in front of the barrier (collection.Cache.Take,
@@ -161,11 +165,15 @@ Definition op_at (c : ccase) (a i : nat) : option op :=
 Definition same_key (o1 o2 : op) : bool :=
   grp_eqb (ogrp o1) (ogrp o2) && (okey o1 =? okey o2)%Z.
 
-Definition find_ev (l : list ev) (k : Z) (a i : nat) : option ev :=
-  find (fun e => (ek e =? k)%Z && Nat.eqb (ea e) a && Nat.eqb (eop e) i) l.
+(* vm_compute is call-by-value: [a && b] evaluates b whatever a is.  Where b is expensive (a search through the
+   whole log, a comparison of unary numbers) the conjunction is written with [if]: same function, evaluated
+   only when needed (logs of hundreds of calls are judged in seconds instead of minutes). *)
+Definition ev_is (k : Z) (a i : nat) (e : ev) : bool :=
+  if (ek e =? k)%Z then (if Nat.eqb (ea e) a then Nat.eqb (eop e) i else false) else false.
 
-Definition count_ev (l : list ev) (k : Z) (a i : nat) : nat :=
-  length (filter (fun e => (ek e =? k)%Z && Nat.eqb (ea e) a && Nat.eqb (eop e) i) l).
+Definition find_ev (l : list ev) (k : Z) (a i : nat) : option ev := find (ev_is k a i) l.
+
+Definition count_ev (l : list ev) (k : Z) (a i : nat) : nat := length (filter (ev_is k a i) l).
 
 Definition pair_nat_eqb (x y : nat * nat) : bool := Nat.eqb (fst x) (fst y) && Nat.eqb (snd x) (snd y).
 
@@ -303,23 +311,26 @@ Definition ret_ok (c : ccase) (e : ev) : bool :=
            not-found outcome, which the cache node keeps as a placeholder; while the store is down every
            call fails fast with the store's error *)
         existsb (fun x => match op_at c (ea x) (eop x) with
-                          | Some o' => same_key o o' && (snd (fn_ret o') =? ev2 e)%Z &&
+                          | Some o' => if same_key o o' && (snd (fn_ret o') =? ev2 e)%Z then
                                        (may_share c e x || ((ev2 e =? enotfound)%Z && cache_hit_shared c e x))
+                                       else false
                           | None => false end) (execs c)
         || ((ev2 e =? -1)%Z && fault_before c e)
         || ctx_done_shared c e o
       else if ccache c then
         existsb (fun x => match op_at c (ea x) (eop x) with
-                          | Some o' => same_key o o' &&
+                          | Some o' => if same_key o o' then
                                        (((oval o' =? ev1 e)%Z && (oerr o' =? 0)%Z &&
                                          (may_share c e x || cache_hit_shared c e x))
                                         || panic_share c e x o')
+                                       else false
                           | None => false end) (execs c)
       else
       existsb (fun x => match op_at c (ea x) (eop x) with
-                        | Some o' => same_key o o' &&
+                        | Some o' => if same_key o o' then
                                      (((fst (fn_ret o') =? ev1 e)%Z && (snd (fn_ret o') =? ev2 e)%Z && may_share c e x)
                                       || panic_share c e x o')
+                                     else false
                         | None => false end) (execs c)
     | GLC =>
       (* own function, exactly once, own result *)
@@ -330,13 +341,18 @@ Definition ret_ok (c : ccase) (e : ev) : bool :=
       if (ev2 e =? 0)%Z then
         (* a successful create of exactly this instance for this key happened before, or is
            the caller's own *)
-        existsb (fun x => match op_at c (ea x) (eop x), find_ev (clog c) 2 (ea x) (eop x) with
-                          | Some o', Some fe => same_key o o' && (oval o' =? ev1 e)%Z && (oerr o' =? 0)%Z && (et fe <? et e)%Z
-                          | _, _ => false end) (execs c)
+        existsb (fun x => match op_at c (ea x) (eop x) with
+                          | Some o' => if same_key o o' && (oval o' =? ev1 e)%Z && (oerr o' =? 0)%Z then
+                                         match find_ev (clog c) 2 (ea x) (eop x) with
+                                         | Some fe => (et fe <? et e)%Z
+                                         | None => false
+                                         end
+                                       else false
+                          | None => false end) (execs c)
       else
         (* a failed (or panicked) creation is shared with the overlapping callers only *)
         existsb (fun x => match op_at c (ea x) (eop x) with
-                          | Some o' => same_key o o' && (oerr o' =? ev2 e)%Z && may_share c e x
+                          | Some o' => if same_key o o' && (oerr o' =? ev2 e)%Z then may_share c e x else false
                           | None => false end) (execs c)
     end
   end.
@@ -346,8 +362,9 @@ Definition fresh_once (c : ccase) (x : ev) : bool :=
   match op_at c (ea x) (eop x) with
   | Some o =>
     match ogrp o with
-    | GSF => Nat.leb (length (filter (fun e => (ek e =? 3)%Z && (ev3 e =? 1)%Z && (ev1 e =? oval o)%Z &&
-                                      match op_at c (ea e) (eop e) with Some o' => same_key o o' | None => false end)
+    | GSF => Nat.leb (length (filter (fun e => if (ek e =? 3)%Z && (ev3 e =? 1)%Z && (ev1 e =? oval o)%Z then
+                                      match op_at c (ea e) (eop e) with Some o' => same_key o o' | None => false end
+                                      else false)
                              (clog c))) 1
     | _ => true
     end
